@@ -193,10 +193,10 @@ func Known(class string) bool {
 	return ok && class != ""
 }
 
-func Thorough() bool { return st.tier == "thorough" }
-func Seed() uint64   { return st.seed }
-func Shard() int     { return st.shard }
-func Shards() int    { return st.shards }
+func Thorough() bool  { return st.tier == "thorough" }
+func Seed() uint64    { return st.seed }
+func Shard() int      { return st.shard }
+func Shards() int     { return st.shards }
 func Replaying() bool { return st.replay != nil }
 
 // Mine tells an exhaustive enumeration whether case number i belongs to this shard.
